@@ -27,6 +27,7 @@ import time
 START_DEADLINE_S = 90.0    # the cluster must have registered by then, else the scenario is inconclusive (machine load)
 RUN_DEADLINE_S = 40.0      # measured from registration: run() must have ended (returned or raised) by then
 EXIT_GRACE_S = 30.0        # after run() ended: executors and their children must be gone by then
+BUSY_WAIT_S = 2.5          # scenarios with a busy companion task: how long fault and companion wait for each other
 
 KINDS = ["none", "raise", "sysexit", "osexit", "sigkill", "kill_ds", "kill_shm", "term_shm", "term_ds",
          "kill_sibling"]
@@ -101,16 +102,47 @@ EXPECTED = {"c0.0": 11, "c1.0": 40, "s.0": 7, "g.1": 20}
 
 def make_job(sc: dict, piddir: str):
     """g (generator, outputs "0","1") -> c0 = g.0 + 1, c1 = g.1 * 2; s = 7 independent.
-    External outputs: c0, c1, s and (shape "gout") g.1 itself."""
+    External outputs: c0, c1, s and (shape "gout") g.1 itself.
+    busy = "sleep" | "gen": one more independent task z (plain / generator) that never ends once the fault is armed,
+    so that the teardown meets a worker which will not read its shutdown request."""
     from cascade.low.builders import JobBuilder, TaskBuilder
     from cascade.low.core import DatasetId, TaskDefinition, TaskInstance
 
     f = sc["fault"]
     kind, code, site, point = f["kind"], int(f.get("code", 1)), f.get("site", "g"), f.get("point", "before")
 
+    busy = sc.get("busy")
+    armed, blocked = os.path.join(piddir, "fault.armed"), os.path.join(piddir, "z.blocked")
+
+    def wait_for(path, seconds):
+        t0 = time.time()
+        while time.time() - t0 < seconds and not os.path.exists(path):
+            time.sleep(0.02)
+        return os.path.exists(path)
+
     def at(s, p):
         if kind != "none" and s == site and p == point:
+            if busy:
+                # give the companion task the chance to be inside its never-ending part when the fault happens
+                open(armed, "w").close()
+                wait_for(blocked, BUSY_WAIT_S)
             inject(kind, code, piddir)
+
+    def block_if_armed():
+        # never-ending only once the fault is certain to happen: without a fault a never-ending task is no failure,
+        # and if this task sits in front of the faulty one on the same worker it must get out of its way
+        if wait_for(armed, BUSY_WAIT_S + 0.5):
+            open(blocked, "w").close()
+            time.sleep(3600)
+
+    def z() -> int:
+        block_if_armed()
+        return 5
+
+    def zg():
+        yield 5
+        block_if_armed()       # stuck between two outputs, the first one already handled
+        yield 6
 
     def g():
         at("g", "before")
@@ -138,6 +170,12 @@ def make_job(sc: dict, piddir: str):
     b = b.with_node("c0", TaskBuilder.from_callable(c0)).with_edge("g", "c0", "x", "0")
     b = b.with_node("c1", TaskBuilder.from_callable(c1)).with_edge("g", "c1", "x", "1")
     b = b.with_node("s", TaskBuilder.from_callable(s))
+    if busy == "sleep":
+        b = b.with_node("z", TaskBuilder.from_callable(z))
+    elif busy == "gen":
+        zd = TaskDefinition(func=TaskDefinition.func_enc(zg), environment=[], input_schema={},
+                            output_schema={"0": "int", "1": "int"})
+        b = b.with_node("z", TaskInstance(definition=zd, static_input_kw={}, static_input_ps={}))
     job = b.build().get_or_raise()
     outs = [DatasetId("c0", "0"), DatasetId("c1", "0"), DatasetId("s", "0")]
     if sc.get("shape") == "gout":
@@ -325,6 +363,8 @@ def run_scenario(sc: dict) -> dict:
         obs["procs_left"] = len(left or [])
         obs["executors_left"] = sum(1 for p in (left or []) if p["pid"] in execs)
         obs["shm_left"] = len(shm_segments(hosts))
+        if sc.get("busy"):
+            obs["busy_engaged"] = os.path.exists(os.path.join(piddir, "z.blocked"))
         obs["executor_exitcodes"] = [p.exitcode for p in ps]
     except BaseException as e:  # noqa  (driver trouble, not an observation)
         obs["driver_error"] = repr(e)[:500]
